@@ -95,7 +95,7 @@ func TestVerif_C14(t *testing.T) {
 		return
 	}
 	rep := vk.NewReport(t, "C14", "fault_enumeration")
-	rep.Rule = "file-backed databases opened through a fault-injecting database/sql driver; for a generated batch history and a chosen batch, every driver call index k (begin, each of the 5 prepares, every statement exec, commit) is failed in turn with {error returned by the driver, context cancelled at the call}, and sampled k (all k in the thorough tier) with {process killed at the call (child process, no rollback, parent reopens)}; after every faulted attempt, every retry, the final success and one more repetition a query panel must equal the model (failed => no-op, succeeded => applied once); close/reopen at seeded points between batches, followed by newer versions / deletion requests aimed at pre-restart rows; a few cases run through NewSQLiteHandler's retry loop; handler-level restarts (history through one handler, stop, close, reopen, new handler: a REQ panel is answered as before and as the model says, also after further events through the new handler; deletion requests by address only / by id only / mixed); shutdown flushes with one buffered event that can never be written (all-or-nothing); non-trivial = a fault that fired inside a batch that would have changed the database; distinct = distinct (fault kind, driver call kind, batch shape)"
+	rep.Rule = "file-backed databases opened through a fault-injecting database/sql driver; for a generated batch history and a chosen batch, every driver call index k (begin, each of the 5 prepares, every statement exec, commit) is failed in turn with {error returned by the driver, context cancelled at the call}, and sampled k (all k in the thorough tier) with {process killed at the call (child process, no rollback, parent reopens)}; after every faulted attempt, every retry, the final success and one more repetition a query panel must equal the model (failed => no-op, succeeded => applied once); close/reopen at seeded points between batches, followed by newer versions / deletion requests aimed at pre-restart rows; a few cases run through NewSQLiteHandler's retry loop; handler-level restarts (history through one handler, stop, close, reopen, new handler: a REQ panel is answered as before and as the model says, also after further events through the new handler; deletion requests by address only / by id only / mixed); shutdown flushes with one buffered event that can never be written (all-or-nothing); added later: after a batch that the handler wrote on its second attempt a panel of id, author/kind, per-tag and generated filters is compared with the model; every second shutdown-flush case buffers a deletion request for a stored event; non-trivial = a fault that fired inside a batch that would have changed the database; distinct = distinct (fault kind, driver call kind, batch shape)"
 	rep.Assume("a batch is 'failed' iff insertEvents returned an error (or its process died before the commit call was made)")
 	defer rep.Finish()
 	ctx := context.Background()
